@@ -11,7 +11,7 @@ import vlib
 ID = "C17"
 CLAIM = True
 MANIFEST_ENTRY = {
-    "text": "Coq theorems (all closed under the global context): every operation of bint.lua/bn.lua the compiler uses - add sub mul inc dec unm, bitwise, comparisons, shifts by any Lua integer count, bwrap, Lua-integer conversions, unsigned/truncated/floor division with remainders, ipow, tobase/frombase for bases 2..36 with round trip, integer literals in bases 2/16 and decimal literals (exact below 2^159, read as a float from there on), tohexint/tobinint/todecint/todecsci, the conversions of Lua integers / integer-valued floats / strings to big numbers and the arithmetic and comparison entry points on such mixed arguments, bint.tonumber (exact integer or nearest double), trunc/floor/ceil of floats, little/big-endian byte buffers - computes exactly in Z reduced to 2^160 two's complement; the model is tied to the code by regenerated parameters and op-by-op correspondence against the real module; rotations for every count; upowmod with m^2>2^bits is refuted (known finding, unused by the compiler)",
+    "text": "Coq theorems (all closed under the global context): every operation of bint.lua/bn.lua the compiler uses - add sub mul inc dec unm, bitwise, comparisons, shifts by any Lua integer count, bwrap, Lua-integer conversions, unsigned/truncated/floor division with remainders, ipow, tobase/frombase for bases 2..36 with round trip, integer literals in bases 2/16 and decimal literals (exact below 2^159, read as a float from there on), tohexint/tobinint/todecint/todecsci, the conversions of Lua integers / integer-valued floats / strings to big numbers and the arithmetic and comparison entry points on such mixed arguments, bint.tonumber (exact integer or nearest double), trunc/floor/ceil of floats, little/big-endian byte buffers - computes exactly in Z reduced to 2^160 two's complement; the model is tied to the code by regenerated parameters and op-by-op correspondence against the real module; rotations for every count, upowmod for every modulus",
     "technique": "machine-checked proof in Coq over an executable model + extracted-model/implementation correspondence",
 }
 ALLOWED_AXIOMS = []
@@ -31,14 +31,15 @@ ASSUMPTIONS = [
 
 # width parameters; gen() resets them from what it scrapes, so a retuned bint(<bits>) is followed
 BITS = 160
+WB = 32          # limb width (bint's wordbits)
 NL = 5
 W = 1 << BITS
 M64 = 1 << 64
 
 
 def set_width(bits, wordbits):
-    global BITS, NL, W, KNOWN_REPLAYS
-    BITS, NL, W = bits, bits // wordbits, 1 << bits
+    global BITS, WB, NL, W, KNOWN_REPLAYS
+    BITS, WB, NL, W = bits, wordbits, bits // wordbits, 1 << bits
     KNOWN_REPLAYS = known_replays()
 
 
@@ -52,7 +53,15 @@ def gen(ctx):
     m2 = re.search(r"wordbits\s*=\s*wordbits\s+or\s+\(intbits\s*//\s*(\d+)\)", bint)
     if not m2:
         raise RuntimeError("cannot find the wordbits default in bint.lua")
-    wordbits = 64 // int(m2.group(1))
+    script = os.path.join(ctx.work if ctx is not None else vlib.CACHE, "intbits.lua")
+    vlib.write_if_changed(script, "local n, i = -1, 0 repeat n, i = n >> 16, i + 16 until n == 0 io.write(i)\n")   # bint.lua's luainteger_bitsize()
+    rc, out, err = vlib.run_lua(script)
+    if rc != 0 or not out.strip().isdigit():
+        raise RuntimeError("cannot determine the Lua integer width: %s" % err[-200:])
+    intbits = int(out.strip())
+    if intbits != 64:
+        raise RuntimeError("coq/Base/LuaInt.v models 64-bit Lua integers, the interpreter has %d" % intbits)
+    wordbits = intbits // int(m2.group(1))
     # digit letters of bint.tobase:  BASE_LETTERS[i-1] = ('0123...xyz'):sub(i,i) for i=1,36
     m3 = re.search(r"for i=1,(\d+) do\s*BASE_LETTERS\[i-1\]\s*=\s*\('([^']+)'\):sub\(i,i\)", bint)
     if not m3:
@@ -103,7 +112,7 @@ def hexs(v):
 
 
 def limbs(u):
-    return ",".join("%x" % ((u >> (32 * i)) & 0xFFFFFFFF) for i in range(NL))
+    return ",".join("%x" % ((u >> (WB * i)) & ((1 << WB) - 1)) for i in range(NL))
 
 
 def b2s(b):
@@ -240,6 +249,10 @@ def in64(z):
 def oracle4(op, args):
     a = args[0]
     b = args[1] if len(args) > 1 else None
+    if op == "lua_tonumber":
+        v = lua_tonumber_base(a, b); return "nil" if v is None else hexs(v)
+    if op == "lua_tostring": return str(a)
+    if op == "lua_format_x": return "%x" % (a % M64)
     if op == "tobint":
         z = to_int(a); return "nil" if z is None else limbs(z % W)
     if op == "new":
@@ -300,7 +313,27 @@ def oracle4(op, args):
     raise KeyError(op)
 
 
-OPS4 = {"tobint": "V", "new": "V", "madd": "VV", "msub": "VV", "mmul": "VV", "mlt": "VV", "mle": "VV", "meq": "VV",
+def lua_tonumber_base(bs, base):
+    """l_str2int of lbaselib.c: spaces, sign, alphanumeric digits below the base (wrapping), spaces; else nil"""
+    ws = b" \f\n\r\t\v"
+    i, n = 0, len(bs)
+    while i < n and bs[i:i + 1] in [ws[k:k + 1] for k in range(len(ws))]: i += 1
+    neg = False
+    if i < n and bs[i:i + 1] in (b"-", b"+"):
+        neg = bs[i:i + 1] == b"-"; i += 1
+    if i >= n or not chr(bs[i]).isalnum() or bs[i] > 127: return None
+    v = 0
+    while i < n and bs[i] < 128 and chr(bs[i]).isalnum():
+        c = chr(bs[i])
+        d = ord(c) - 48 if c.isdigit() else ord(c.upper()) - 55
+        if d >= base: return None
+        v = (v * base + d) % M64; i += 1
+    while i < n and bs[i:i + 1] in [ws[k:k + 1] for k in range(len(ws))]: i += 1
+    if i != n: return None
+    return wrap64s(-v if neg else v)
+
+
+OPS4 = {"lua_tonumber": "SI", "lua_tostring": "I", "lua_format_x": "I", "tobint": "V", "new": "V", "madd": "VV", "msub": "VV", "mmul": "VV", "mlt": "VV", "mle": "VV", "meq": "VV",
         "tonumber": "B", "trunc": "V", "floor": "V", "ceil": "V", "fromle": "S", "frombe": "S", "tole": "BT", "tobe": "BT",
         "todecsci": "BT", "demotefloat": "V", "canbeintegral": "V"}
 
@@ -336,8 +369,8 @@ def oracle(op, args):
     if op == "tointeger": return hexs(wrap64s(sgn(a)))
     if op == "fromuinteger": return limbs(a % M64)          # a is a signed 64-bit integer here
     if op == "frominteger": return limbs(a % W)
-    if op == "shlwords": return limbs((a << (32 * b)) % W)
-    if op == "shrwords": return limbs(a >> (32 * b))
+    if op == "shlwords": return limbs((a << (WB * b)) % W)
+    if op == "shrwords": return limbs(a >> (WB * b))
     if op in ("shl", "shr"):
         k = b if op == "shl" else -b
         if abs(k) >= BITS:
@@ -440,7 +473,6 @@ SIG.update(OPS4)
 def known_replays():
     """(op, args, width-independent key) of the inputs on which the unchanged code deviates from the property"""
     return [
-        ("upowmod", (1 << (BITS // 2), 2, W - 1), "bint:upowmod(2^(bits/2), 2, 2^bits-1)"),
     ]
 
 
@@ -451,7 +483,7 @@ def lattice():
     L = {0, 1, 2, W - 1, W - 2}
     ks = {8, 16, BITS - 1}
     for j in range(1, NL):
-        ks |= {32 * j - 1, 32 * j, 32 * j + 1}
+        ks |= {WB * j - 1, WB * j, WB * j + 1}
     for k in sorted(ks):
         for d in (-1, 0, 1):
             L.add(((1 << k) + d) % W)
@@ -463,12 +495,12 @@ def lattice():
 
 
 def limb_patterns(rng, n):
-    pats = [0xFFFFFFFF, 0x80000000, 0x7FFFFFFF, 1, 0]
+    pats = [(1 << WB) - 1, 1 << (WB - 1), (1 << (WB - 1)) - 1, 1, 0]
     out = []
     for _ in range(n):
         v = 0
         for i in range(NL):
-            v |= rng.choice(pats) << (32 * i)
+            v |= rng.choice(pats) << (WB * i)
         out.append(v)
     return out
 
@@ -488,7 +520,7 @@ def gen_cases(ctx):
     def draw(kind=None):
         kind = kind or rng.choice(["dense", "sparse", "small", "pattern", "lattice", "short"])
         if kind == "dense": return rng.getrandbits(BITS)
-        if kind == "sparse": return (rng.getrandbits(32) << (32 * rng.randrange(NL))) | (rng.getrandbits(32) if rng.random() < .3 else 0)
+        if kind == "sparse": return (rng.getrandbits(WB) << (WB * rng.randrange(NL))) | (rng.getrandbits(WB) if rng.random() < .3 else 0)
         if kind == "small": return rng.choice([rng.getrandbits(12), (-rng.getrandbits(12)) % W])
         if kind == "lattice": return rng.choice(L)
         if kind == "short":  # random bit length, either sign: exercises findleftbit / denosize / chunk counts
@@ -551,8 +583,7 @@ def gen_cases(ctx):
         add("pow", "ipow", draw(), e)
     for _ in range(ctx.scale(60, 2000)):
         e = rng.choice([rng.randrange(0, 40), rng.getrandbits(rng.randrange(1, BITS))])
-        # moduli up to 2^(bits/2): beyond that z*x wraps before the reduction (see KNOWN_REPLAYS)
-        m = rng.choice([0, 1, 2, rng.getrandbits(rng.randrange(1, BITS // 2)), 1 << (BITS // 2), (1 << (BITS // 2)) - 1])
+        m = rng.choice([0, 1, 2, rng.getrandbits(rng.randrange(1, BITS + 1)), (1 << (BITS // 2)) + 1, W - 1, W - 2, (W // 2) + 1, draw()])
         add("pow", "upowmod", draw(), e, m)
     # text: every base, both signs, all flag values
     for base in range(2, 37):
@@ -586,6 +617,19 @@ def gen_cases(ctx):
         if k == "from_bin": add("literal", k, neg, to_base(v, 2).encode())
         elif k == "from_hex": add("literal", k, neg, rng.choice([to_base(v, 16), to_base(v, 16).upper()]).encode())
         else: add("literal", k, ((rng.choice(["-", "+", ""])) + to_base(v, 10)).encode())
+    # ---- the Lua VM functions modelled in Model3.v, called directly (tonumber(s, base), tostring, '%x') ----
+    for i in ints + [10**18, -10**18, 2**53, 1 << 40]:
+        add("luavm", "lua_tostring", i); add("luavm", "lua_format_x", i)
+    for _ in range(ctx.scale(200, 4000)):
+        i = wrap64s(rng.getrandbits(rng.randrange(1, 65)))
+        add("luavm", "lua_tostring", i); add("luavm", "lua_format_x", i)
+    for _ in range(ctx.scale(600, 12000)):
+        base = rng.randrange(2, 37)
+        body = "".join(rng.choice(DIGITS[:base] + DIGITS[:base].upper()) for _ in range(rng.choice([0, 1, 2, 5, 13, 20, 64, 70])))
+        if rng.random() < .25 and body:   # a bad character somewhere
+            k = rng.randrange(len(body)); body = body[:k] + rng.choice([DIGITS[base:base + 1] or "_", "-", ".", " ", "_", "\t"]) + body[k + 1:]
+        t = rng.choice(["", "", " ", "\t\n", "\v\f\r "]) + rng.choice(["", "", "-", "+", "--", "- "]) + body + rng.choice(["", "", " ", "\n\t", " x"])
+        add("luavm", "lua_tonumber", t.encode(), base)
     # ---- how types.lua calls the library: Lua integers, floats, strings and bints mixed ----
     floats = [0.0, -0.0, 1.0, -1.0, 2.5, -2.5, 0.5, -0.5, 1e-300, 255.0, -256.0, 2.0**31, 2.0**32, 2.0**52 + 0.5, 2.0**53, 2.0**53 + 2,
               -(2.0**53), 2.0**62, 2.0**63, 2.0**63 - 1024, -(2.0**63), -(2.0**63) - 2048, 2.0**64, 1e19, 1e30, 2.0**159, 2.0**160, 1e300, -1e300,
@@ -789,7 +833,6 @@ def correspond(ctx):
 
 # operations covered by correspondence + oracle only (no theorem in Properties.v yet)
 UNPROVED = [
-    "upowmod for moduli with m*m > 2^bits: full statement refuted (C17_upowmod_refuted), known finding; a validated full-range repair is in harness/C17/proposed_repairs/upowmod_full_range.diff",
     "fallback arithmetic on plain Lua numbers (an operand without an exact integer representation: the VM's float/integer arithmetic on bint.tonumber of the operands): the theorem only says which operands are handed to the VM; results are the VM's (property C02)",
     "mlt/mle/meq when an operand is not an integer: the model compares exactly by value (lvm.c), correspondence + oracle only, no theorem",
     "bn.demotefloat, bn.canbeintegral, bn.isnan/isinfinite, trunc/floor/ceil of strings: model + correspondence + oracle only",
